@@ -3,7 +3,7 @@ operation.  Rules R13.1 - R13.6 (DESIGN 4.13)."""
 import ast
 
 from ..pymodel import AnalysisError, FuncInfo
-from ..astutil import (expand_preds, src, is_name, is_attr, is_const, call_name, norm_compare, orient,
+from ..astutil import (positive_form, expand_preds, src, is_name, is_attr, is_const, call_name, norm_compare, orient,
                        walk_no_nested, strip_docstring, compare_atoms, enclosing_stmt,
                        parent, calls_in)
 from ..cfg import cfg_of, ENTRY, EXIT, RAISE
@@ -67,12 +67,42 @@ def _is_recompute(ctx, value, fn, selfn):
     """value is an expression that recomputes the minimum of the collection."""
     if isinstance(value, ast.Call):
         nm = call_name(value)
-        if nm == '_recompute_best' and value.args and is_name(value.args[0], selfn):
+        if nm in recompute_funcs(ctx) and value.args and is_name(value.args[0], selfn):
             return True
         if is_name(value.func, 'min') and value.args and is_name(value.args[0], selfn):
             dflt = [k for k in value.keywords if k.arg == 'default']
             return bool(dflt) and is_const(dflt[0].value, None)
     return False
+
+
+def recompute_funcs(ctx):
+    """Names of module-level helpers in the results module that return the minimum-by-value element of their
+    argument (None when empty): a scan loop with an incumbent starting at None, or min(..., default=None)."""
+    cache = getattr(ctx, '_recompute_funcs', None)
+    if cache is not None:
+        return cache
+    out = set()
+    mod = ctx.prog.cls(CLS).module
+    for f in ctx.prog.all_funcs():
+        if f.module is not mod or f.cls is not None or f.outer is not None or len(f.params) != 1:
+            continue
+        body = strip_docstring(f.node.body)
+        rets = [n for n in walk_no_nested(body) if isinstance(n, ast.Return)]
+        loops = [n for n in walk_no_nested(body) if isinstance(n, ast.For) and is_name(n.iter, f.params[0])]
+        if loops and rets and all(isinstance(r.value, ast.Name) for r in rets):
+            inc = rets[-1].value.id
+            init_none = any(isinstance(n, ast.Assign) and is_name(n.targets[0], inc) and is_const(n.value, None) for n in body)
+            upd = any(isinstance(n, ast.Assign) and is_name(n.targets[0], inc) and src(n.value) == src(loops[0].target)
+                      for n in ast.walk(loops[0]))
+            if init_none and upd:
+                out.add(f.name)
+        for r in rets:
+            v = r.value
+            if isinstance(v, ast.Call) and is_name(v.func, 'min') and v.args and is_name(v.args[0], f.params[0]) and \
+                    any(k.arg == 'default' and is_const(k.value, None) for k in v.keywords):
+                out.add(f.name)
+    ctx._recompute_funcs = out
+    return out
 
 
 def _best_assigns(fn, selfn):
@@ -107,10 +137,8 @@ def _guarded_update_ok(ctx, fn, assign, cand_texts, selfn):
         return False, "assigns %s, not the added element (%s)" % (cand, '/'.join(sorted(cand_texts))), True
     doms = [(t, pol, owner) for t, pol, owner in g.edge_dominators(assign)]
     for t, pol, owner in doms:
-        if not pol:
-            continue
-        # look for a comparison between cand and best inside the test (trivial predicate helpers inlined)
-        for c in ast.walk(expand_preds(t)):
+        # look for a comparison between cand and best inside the (positive form of the) dominating test
+        for c in ast.walk(positive_form(t, pol)):
             if isinstance(c, ast.Compare) and len(c.ops) == 1:
                 l, r = src(c.left), src(c.comparators[0])
                 pair = {l.replace('.value', ''), r.replace('.value', '')}
@@ -282,10 +310,7 @@ def rules(ctx):
                     if any(g.dominates([o], s) and o is not s for o in owners):
                         # and the raw op must be performed with an AnnealResults
                         # operand (whose .best is maintained): isinstance guard
-                        facts = []
-                        for t, pol, o in g.edge_dominators(s):
-                            if pol:
-                                facts.append(src(t))
+                        facts = [src(positive_form(t, pol)) for t, pol, o in g.edge_dominators(s)]
                         if any('isinstance(%s, AnnealResults)' % other in f for f in facts):
                             good_nodes.add(s)
                             detail.append('guarded update with %s.best before raw op' % other)
@@ -328,8 +353,8 @@ def rules(ctx):
              "constructor may add elements without maintaining best")
 
     # _recompute_best orientation (R13.3)
-    if P.has_func('_anneal_results._recompute_best'):
-        rb = P.func('_anneal_results._recompute_best')
+    for rname in sorted(recompute_funcs(ctx)):
+        rb = P.func('_anneal_results.%s' % rname)
         arg = rb.params[0]
         found = False
         for n in walk_no_nested(strip_docstring(rb.node.body)):
